@@ -16,8 +16,17 @@ def simpleLeft : Node → Bool
   | .prop _ x _ _ => simpleLeft x
   | _ => false
 
-def isIntKd : RKind → Bool
-  | .num k => k.isInt
+/-- integer kinds for which `x in a..b` and `x >= a and x <= b` agree for all literal bounds:
+    the kinds whose comparison with an `int` literal is exact or converts the *operand* to `int`
+    (`int8`, `int16`, `int32` rank above `int` in the promotion rule, so the bounds would be narrowed) -/
+def rangeKd : RKind → Bool
+  | .num .int => true
+  | .num .int64 => true
+  | .num .uint => true
+  | .num .uint8 => true
+  | .num .uint16 => true
+  | .num .uint32 => true
+  | .num .uint64 => true
   | _ => false
 
 /-- `(*inRange).Exit` -/
@@ -25,7 +34,7 @@ def inRangeRule (fl : Flags) : Rule := fun n st =>
   match n with
   | .binary _ op l (.binary _ rop (.int mf a) (.int mt b)) =>
     if (op == "in" || op == "not in") && rop == ".." then
-      if fl.inRangeKindGuard && !isIntKd l.kd then (n, st)
+      if fl.inRangeKindGuard && !rangeKd l.kd then (n, st)
       else if fl.inRangeSimpleLeft && !simpleLeft l then (n, st)
       else
         let conj := patch n (.binary {} "and" (.binary {} ">=" l (.int mf a)) (.binary {} "<=" l (.int mt b)))
